@@ -610,7 +610,7 @@ func profileDispatch(c *Ctx) int {
 	} {
 		fn := p.Func(it.fn)
 		if fn == nil {
-			r.Fatalf("anchor %s missing", it.fn)
+			missingAnchor(r, it.fn)
 			continue
 		}
 		m := bits.Run(p, fn)
